@@ -402,16 +402,25 @@ func correspond(c *hx.Ctx, cases []caseInfo, plain bool) error {
 	return nil
 }
 
-var alphabet = []string{"i0", "i1", "n1", "(", ")", "[", "]", ".", ",", "...", "==", "!=", "<", "<=", ">", ">=", "!", "&", "|", "&&", "||",
+var alphabet = []string{"i0", "i1", "n1", "f0", "s0", "r0", "m0", "(", ")", "[", "]", ".", ",", "...", ":", ":", "map", "chan", "interface", "{", "}", "default", "[", "]", "*", "<-", "==", "!=", "<", "<=", ">", ">=", "!", "&", "|", "&&", "||",
 	"+", "-", "*", "/", "%", "^", "&^", "<<", ">>", "<-", "contains", "not", "and", "or"}
 
 func wordSource(w string) string {
-	if len(w) > 1 && (w[0] == 'i' || w[0] == 'n') {
-		if _, err := strconv.Atoi(w[1:]); err == nil {
+	if len(w) > 1 {
+		if n, err := strconv.Atoi(w[1:]); err == nil && strconv.Itoa(n) == w[1:] {
 			if w[0] == 'i' {
 				return "x" + w[1:]
 			}
-			return w[1:]
+			for _, t := range litTables {
+				if t.letter == w[:1] {
+					if t.texts == nil {
+						return w[1:]
+					}
+					if n < len(t.texts) {
+						return t.texts[n]
+					}
+				}
+			}
 		}
 	}
 	return w
@@ -460,12 +469,9 @@ func malformed(c *hx.Ctx, cases []caseInfo) error {
 		}
 		skip := false
 		for j := range w {
-			// `. (` starts a type assertion and `:`/`{` are outside the model's alphabet
-			if w[j] == "." && j+1 < len(w) && w[j+1] == "(" {
-				skip = true
-			}
-			// template-only words are identifiers in programs
-			if k.d == program && (w[j] == "contains" || w[j] == "not" || w[j] == "and" || w[j] == "or") {
+			// template-only words are identifiers in programs; `default` is a keyword in both but an
+			// operator in templates only
+			if k.d == program && (w[j] == "contains" || w[j] == "not" || w[j] == "and" || w[j] == "or" || w[j] == "default") {
 				skip = true
 			}
 		}
